@@ -113,7 +113,8 @@ class C15(Prop):
             '<= 4 (thorough) over 6 representative states x timeouts {None,0,1,3} for Task.wait and Pilot.wait, and '
             'pairs of trajectories of length <= 2 x 3 requests x 3 uid forms for the manager calls; staggered sets of 2-3 '
             'entities that pass through the requested transient state at different ticks (delays x dwell x endings x '
-            'every transient request); random '
+            'every transient request); for wait_tasks, tasks that are already past the awaited transient state at the '
+            'call or jump over it between two ticks and linger in a later non-final state; random '
             'mostly-monotone trajectories (stalls, gaps, wrong final state, never-final) for all four calls with '
             'uid forms None/[]/one/list/unknown, termination ticks, clock offsets; non-trivial = the call polls at '
             'least once (returns at tick >= 1 or spins) and the awaited entities change state at least once')
@@ -127,7 +128,9 @@ class C15(Prop):
         'interval (0.1 s) is outside the statement; clause `timely` = (all awaited entities show a requested/final '
         'state at ticks k and k+1 => returned by k+1) and (every awaited entity HAS shown a requested/final state '
         'at some tick p0 <= j <= k, each at its own tick => returned by k+1; p0 = 1 for wait_tasks, which sleeps '
-        'before its first look, else 0)',
+        'before its first look, else 0) and, for wait_tasks only, (every awaited task HAS REACHED a requested '
+        'state: at some tick 1 <= j <= k it shows a requested state, a state with a value >= that of a requested '
+        'state, or a final state => returned by k+1)',
     ]
     assumptions = ['requested states are names of states.py for the entity kind (others raise KeyError in '
                    'wait_tasks and are outside the model)',
@@ -230,6 +233,27 @@ class C15(Prop):
                         for req in reqs:
                             for uids in ((None,) if tier == 'quick' else (None, [2, 1])):
                                 yield dict(fn=fn, ents=ents, uids=uids, req=req, timeout=None, term=None, t0=7)
+        # wait_tasks, "reached" reading: the awaited (transient, typically
+        # *_PENDING) state is never SEEN by a poll -- the task is already past
+        # it when the call begins, or jumps over it between two ticks -- and the
+        # task lingers in a later non-final state (long-running task)
+        for awaited, before, after in (('AGENT_EXECUTING_PENDING', 'AGENT_SCHEDULING', 'AGENT_EXECUTING'),
+                                       ('TMGR_SCHEDULING_PENDING', 'NEW', 'TMGR_SCHEDULING'),
+                                       ('AGENT_STAGING_OUTPUT_PENDING', 'AGENT_EXECUTING', 'TMGR_STAGING_OUTPUT')):
+            past = [[after], [after, after, after], [after] * 4 + ['DONE']]
+            jump = [[before] * d + [after] * 3 + end for d in (1, 2, 3) for end in ([], ['FAILED'])]
+            seen = [[before, awaited, after, after]]
+            single = past + jump
+            pairs = [(a, b) for a in past[:2] + jump[:2] for b in jump[1:4] + seen]
+            reqs = [awaited, [awaited], [awaited, 'DONE']] if tier != 'quick' else [awaited, [awaited, 'DONE']]
+            for req in reqs:
+                for tr in single:
+                    for uids in (None, 1):
+                        yield dict(fn='wait_tasks', ents=[[1, tr]], uids=uids, req=req, timeout=None, term=None, t0=7)
+                    yield dict(fn='wait_tasks', ents=[[1, tr]], uids=[1], req=req, timeout=20, term=None, t0=1000)
+                for a, b in pairs:
+                    yield dict(fn='wait_tasks', ents=[[1, a], [2, b]], uids=None, req=req,
+                               timeout=None, term=None, t0=7)
         n = 900 if tier == 'quick' else 12000
         for _ in range(n):
             fn = rng.choice(FNS)
